@@ -8,7 +8,14 @@
      Q k1 k2 ..            keys queried after every batch (hex)
      B k v k v ..          a batch; v = '-' for DefaultLeaf
      O root g1 g2 ..       what the implementation reported after that batch
+     L 0|1                 before the batches: also run the batch-storage model (BatchModel.v);
+                           1 = AtomicUpdate
+     U k:v k:v ..          updatedNodes reported by the implementation after that Update
+                           (key : serializeBatch, sorted by key), compared byte for byte with the
+                           model's [upd]; also compares the batch-level root and abs_batch_store
+     C                     Commit (batch-storage model)
      E                     end of case: prints "ok" or "diff <batch> <model root> <model gets>"
+                           (or "bdiff <batch> <what>" for the batch-storage model)
      P at key              (C11) model proof of key against the tree after batch <at>:
                            prints "proof inc pk pv height bitmap ap1,ap2,..  apc1,apc2.."
      V kind root key value pk length bitmap ap1,ap2,..   (C11) model verifier verdict: "1"/"0"
@@ -53,6 +60,10 @@ let () =
   let hist = ref [] in          (* trees after each batch, most recent first *)
   let nb = ref 0 in
   let diff = ref None in
+  let blevel = ref None in      (* Some atomic *)
+  let bst = ref { db = []; upd = [] } in
+  let broot = ref [] in
+  let berr = ref false in
   (try
     while true do
       let line = input_line stdin in
@@ -62,8 +73,37 @@ let () =
           let rec pairs = function
             | k :: v :: tl -> (bytes_to_bits (bytes_of_hex k), (if v = "-" then None else Some (bytes_of_hex v))) :: pairs tl
             | _ -> [] in
-          t := trie_update th256 !t (pairs kvs);
-          hist := !t :: !hist
+          let ps = pairs kvs in
+          t := trie_update th256 !t ps;
+          hist := !t :: !hist;
+          (match !blevel with
+           | Some atomic when not !berr ->
+               (match trie_update_b toy_hash atomic !bst !broot ps with
+                | Some (st', r) -> bst := st'; broot := r
+                | None -> berr := true;
+                    if !diff = None then diff := Some (Printf.sprintf "bdiff %d model-load-error" !nb))
+           | _ -> ())
+      | ["L"; a] -> blevel := Some (a = "1")
+      | "U" :: ents ->
+          (* nb was already advanced by the O record of this batch *)
+          (match !blevel with
+           | Some atomic when not !berr && !diff = None ->
+               let bi = !nb - 1 in
+               let mine = List.sort compare (List.map (fun (k, b) -> hex_of_bytes k ^ ":" ^ hex_of_bytes (serialize_batch b)) !bst.upd) in
+               let theirs = List.sort compare ents in
+               let mroot = hex_of_bytes !broot in
+               let troot = hex_of_bytes (root toy_hash th256 !t) in
+               if mroot <> troot then diff := Some (Printf.sprintf "bdiff %d root batch-model=%s tree-model=%s" bi mroot troot)
+               else if mine <> theirs then begin
+                 let only l1 l2 = List.filter (fun x -> not (List.mem x l2)) l1 in
+                 diff := Some (Printf.sprintf "bdiff %d updatedNodes model-only=[%s] impl-only=[%s]" bi
+                                 (String.concat " " (only mine theirs)) (String.concat " " (only theirs mine)))
+               end else
+                 (match abs_batch_store !bst !broot with
+                  | Some t' when t' = !t -> ()
+                  | _ -> diff := Some (Printf.sprintf "bdiff %d abs_batch_store differs from the tree model" bi))
+           | _ -> ())
+      | ["C"] -> (match !blevel with Some _ -> bst := commit_store !bst | None -> ())
       | "O" :: r :: gs ->
           let mr = hex_of_bytes (root toy_hash th256 !t) in
           let mg = List.map (fun k -> oget (get !t k)) !q in
@@ -72,7 +112,8 @@ let () =
           incr nb
       | ["E"] ->
           print_endline (match !diff with None -> "ok" | Some d -> d);
-          q := []; t := E; hist := []; nb := 0; diff := None
+          q := []; t := E; hist := []; nb := 0; diff := None;
+          blevel := None; bst := { db = []; upd = [] }; broot := []; berr := false
       | ["T"; hx] -> print_endline (hex_of_bytes (toy_hash (bytes_of_hex hx)))
       | rest -> Driver_c11.handle toy_hash th256 (List.rev !hist) rest
     done
